@@ -1,1 +1,101 @@
-fn main(){}
+//! netmon — live runtime monitors for the wtransport driver (engines E-live and E-raw).
+//!
+//! usage: netmon <Cxx> --tier quick|thorough --seed N --out FILE [--threads N]
+
+mod c01;
+mod c05;
+mod c07;
+mod c08;
+mod ends;
+mod raw;
+mod scen;
+mod util;
+
+use refcodec::json::J;
+use refcodec::report::Report;
+use std::time::Instant;
+
+#[derive(Clone)]
+pub struct Args {
+    pub prop: String,
+    pub thorough: bool,
+    pub seed: u64,
+    pub out: String,
+    pub threads: usize,
+    pub replay: Option<String>,
+}
+
+fn parse_args() -> Args {
+    let mut a = Args { prop: String::new(), thorough: false, seed: 1, out: String::new(), threads: 8, replay: None };
+    let mut it = std::env::args().skip(1);
+    while let Some(x) = it.next() {
+        match x.as_str() {
+            "--tier" => a.thorough = it.next().as_deref() == Some("thorough"),
+            "--seed" => a.seed = it.next().and_then(|s| s.parse().ok()).unwrap_or(1),
+            "--out" => a.out = it.next().unwrap_or_default(),
+            "--threads" => a.threads = it.next().and_then(|s| s.parse().ok()).unwrap_or(8),
+            "--replay" => a.replay = it.next(),
+            p if !p.starts_with("--") => a.prop = p.to_string(),
+            other => {
+                eprintln!("unknown argument {other}");
+                std::process::exit(64);
+            }
+        }
+    }
+    a
+}
+
+pub fn runtime(multi: bool, workers: usize) -> tokio::runtime::Runtime {
+    if multi {
+        tokio::runtime::Builder::new_multi_thread().worker_threads(workers.max(1)).enable_all().build().expect("runtime")
+    } else {
+        tokio::runtime::Builder::new_current_thread().enable_all().build().expect("runtime")
+    }
+}
+
+/// Turns panics recorded inside /repo code since `mark` into violations of `prop`.
+pub fn fold_panics(rep: &mut Report, prop: &str, mark: usize) {
+    for p in util::repo_panics_since(mark) {
+        rep.violation(
+            format!("{prop}|panic|{}", p.sig()),
+            format!("panic inside the library at {}:{} on thread {}: {}", p.file, p.line, p.thread, p.message),
+            J::obj([("file", J::s(p.file.clone())), ("message", J::s(p.message.clone()))]),
+        );
+    }
+    let hp = util::harness_panics_since(mark);
+    if !hp.is_empty() {
+        rep.inconclusive(format!("harness panic: {}:{} {}", hp[0].file, hp[0].line, hp[0].message));
+    }
+}
+
+fn main() {
+    let args = parse_args();
+    let started = Instant::now();
+    util::install_panic_hook();
+    let mark = util::panic_mark();
+    let mut rep = match args.prop.as_str() {
+        "C01" => c01::run(&args),
+        "C05" => c05::run(&args),
+        "C07" => c07::run(&args),
+        "C08" => c08::run(&args),
+        other => {
+            eprintln!("netmon: unknown property {other}");
+            std::process::exit(64);
+        }
+    };
+    fold_panics(&mut rep, &args.prop, mark);
+    let mut j = rep.to_json(&args.prop, "netmon");
+    if let J::Obj(m) = &mut j {
+        m.insert("seed".into(), J::u(args.seed));
+        m.insert("tier".into(), J::s(if args.thorough { "thorough" } else { "quick" }));
+        m.insert("wall_s".into(), J::Float(started.elapsed().as_secs_f64()));
+    }
+    let text = j.render();
+    if args.out.is_empty() {
+        println!("{text}");
+    } else {
+        std::fs::write(&args.out, text).expect("write report");
+    }
+    // do not wait for lingering background tasks of dropped runtimes
+    std::process::exit(0);
+}
